@@ -14,6 +14,10 @@ def run(ctx):
     res.rule("C10-R2", "for each encode overload, along every path from its entry through init/putPacket/helpers, each scratch member (and "
                         "min/max) is (re)defined — assigned or cleared — before it is first read; read-modify-write does not count as a definition")
     res.rule("C10-R3", "no function-local or namespace-scope mutable static exists in the encoder")
+    res.rule("C10-R4", "the one member that survives a call — the sequence counter — enters the output only as `previous + 1 modulo 2^16` per opened frame "
+                        "(C09-R1's writer discipline and C09-R2's stamping): the outputs of two histories then differ by one constant offset in every "
+                        "frame and in nothing else; any other arithmetic on it (skipping a value, saturating, restarting) makes the difference depend "
+                        "on where the counter stood")
     res.assumptions += ["the encoder's code is deterministic given its members and arguments (no statics: checked; no I/O)"]
     res.not_decided += ["none: output can depend on history only through state that survives a call"]
     E.rule_state_reset(res, "C10-R1", "C10-R2", m)
@@ -26,6 +30,9 @@ def run(ctx):
                 bad.append("%s at %s" % (n.get("decl"), n.get("loc")))
     res.check(not st and not bad, "C10-R3", "encoder:statics", m.rec["loc"], "%d encoder methods reference no mutable static" % len(m.methods),
               "encoder uses mutable static state: %s" % (bad + [s["name"] for s in st])[:4])
+    E.rule_counter_writers(res, "C10-R4", m)
+    E.rule_frame_stamped(res, "C10-R4", m)
+    res.floor("C10-R4", 4)
     res.floor("C10-R1", 9)
     res.floor("C10-R2", 15)
     return res
